@@ -35,6 +35,7 @@ from ..schema import (
     ObjectType,
     ScalarType,
     UnionType,
+    is_input_type,
 )
 from ..schema.introspection import INTROPSPECTION_TYPES
 from ..schema.scalars import default_scalar
@@ -574,6 +575,15 @@ class ASTTypeBuilder:
         )
 
     def _extend_argument(self, argument: Argument) -> Argument:
+        # Same as when building: the type is extended eagerly and an output
+        # type could be the very type being extended.
+        if not is_input_type(argument.type):
+            raise SDLError(
+                'Expected input type for argument "%s" but got "%s"'
+                % (argument.name, argument.type),
+                [argument.node] if argument.node else None,
+            )
+
         return Argument(
             argument.name,
             self.extend_type(argument.type),
